@@ -152,8 +152,10 @@ Section Req.
       assert (Hcd : forall c0, In c0 [c; c'] -> is_data c0 = true) by (intros c0 [<- | [<- | []]]; apply coll_is_data; assumption).
       cbn [seqs]. eapply WP_seq; [apply (get_target_12 [c; c']); auto; left; reflexivity|]. intros s1 t1 Hs1.
       eapply WP_seq with (M := J12 [c; c']).
-      { apply WP_read. intros [[|v0]|]; try (apply (get_many_12 [c; c']); auto; right; left; reflexivity);
-          (destruct (path_eqb c c'); [exact Hs1 | apply (get_many_12 [c; c']); auto; right; left; reflexivity]). }
+      { apply WP_read. intros [[|v0]|];
+          (destruct (path_eqb c c'); try exact Hs1;
+           first [apply (get_many_12 [c; c']); auto; right; left; reflexivity
+                 | apply (get_target_12 [c; c']); auto; right; left; reflexivity]). }
       intros s2 t2 Hs2. eapply WP_mono; [apply J12_mon | apply move_c12; assumption].
     - (* RPropPatch *) eapply WP_mono; [apply J12_mon | apply set_meta_c12; exact H].
     - (* RMkcol *) unfold create_collection, create_collection_gen. destruct H as [Hm _].
@@ -174,3 +176,9 @@ Proof.
   apply (run_WP (request_prog lay r) (TQ (IG (GX []))) s o); [|exact Hn].
   apply request_wp12; [exact Hwf | exact Hk | apply J12_start; exact Hd].
 Qed.
+
+(* Contrapositive, for the record: whatever the oracle does (e.g. it makes an fsync fail), an operation whose
+   executed steps are not durable does not end normally -- a failed flush is never acknowledged. *)
+Lemma c12_unflushed_aborts : forall lay u s o, unit_wf u -> dirs_exist (unit_dirs u) s ->
+  let r := machine_run o (unit_prog lay u) (start s) in ~ durable (done (c_tr (fst r))) -> snd r <> ONorm.
+Proof. intros lay u s o Hwf Hd r Hnd Hn. apply Hnd. apply (c12_units lay u s o Hwf Hd Hn). Qed.
